@@ -1,3 +1,4 @@
+import Model.MD5
 /-
   Model of /repo/token.go (partitioners, token order, ParseString) and of
   session.go `createRoutingKey` (composite routing key framing).
@@ -14,6 +15,9 @@ def beNat : List UInt8 → Nat
 def randomToken (digest : List UInt8) : Int :=
   let val : Int := beNat digest
   if (digest.headD 0).toNat > 127 then (val - (2:Int)^128).natAbs else val
+
+/-- token.go `randomPartitioner.Hash(partitionKey)` with `md5.Sum` = RFC 1321 (Model/MD5.lean) -/
+def randomTokenOfKey (key : List UInt8) : Int := randomToken (MD5.sum key)
 
 /-- Spec (Cassandra RandomPartitioner): `new BigInteger(md5).abs()` — the digest read as a
     signed two's-complement 128-bit integer, absolute value. -/
